@@ -320,50 +320,67 @@ theorem C18_send_cancel_id_neg :
 
 /-! ### C-STORE sub-operation responses (`_c_store_scp`, C-GET SCU) -/
 
-/-- the response to a C-STORE sub-operation goes on a context that was not accepted
-exactly when no valid context was found and context id 1 is not accepted -/
-theorem C18_substore_rsp_partial (acc : List Cx) (reqCtx ab : Nat) :
-    (cStoreScp acc reqCtx ab).rspCtx ∈ ids acc ↔
-      ((cStoreScp acc reqCtx ab).handler ≠ none ∨ 1 ∈ ids acc) := by
-  unfold cStoreScp
-  cases h : getValidContext acc ab none (some .scp) (some reqCtx) true with
-  | none => simp
-  | some c =>
-    have := (C18_sound _ _ _ _ _ _ _ h).1
-    simp only [ne_eq, reduceCtorEq, not_false_eq_true, true_or, iff_true]
-    exact List.mem_map.mpr ⟨c, this, rfl⟩
+/-- a response to a C-STORE sub-operation goes on a context that was not accepted exactly when
+the request's id is accepted, no valid context was found and context id 1 is not accepted
+(`g`: whether the code first rejects unaccepted ids, `Gen.Glue.subStoreRejectsUnaccepted`; with
+`g = true` a request on an unaccepted id gets no response at all, C19_substore) -/
+theorem C18_substore_rsp_partial (g : Bool) (acc : List Cx) (reqCtx ab k : Nat)
+    (hk : (cStoreScp g acc reqCtx ab).rspCtx = some k) :
+    k ∈ ids acc ↔ ((cStoreScp g acc reqCtx ab).handler ≠ none ∨ 1 ∈ ids acc) := by
+  unfold cStoreScp at hk ⊢
+  split at hk
+  · simp at hk
+  · rename_i hgd
+    simp only [hgd, Bool.false_eq_true, ↓reduceIte]
+    cases h : getValidContext acc ab none (some .scp) (some reqCtx) true with
+    | none =>
+      rw [h] at hk
+      simp only [Option.some.injEq] at hk
+      subst hk
+      simp
+    | some c =>
+      rw [h] at hk
+      simp only [Option.some.injEq] at hk
+      subst hk
+      have := (C18_sound _ _ _ _ _ _ _ h).1
+      simp only [ne_eq, reduceCtorEq, not_false_eq_true, true_or, iff_true]
+      exact List.mem_map.mpr ⟨c, this, rfl⟩
 
 /-- when the handler path is taken, the response travels on the accepted context
 the handler saw, which has the request's SOP class and the SCP role -/
-theorem C18_substore_handler_ctx (acc : List Cx) (reqCtx ab : Nat) (c : Cx)
-    (h : (cStoreScp acc reqCtx ab).handler = some c) :
-    c ∈ acc ∧ AbOk ab c ∧ c.asScp = true ∧ (cStoreScp acc reqCtx ab).rspCtx = c.id ∧
-      (cStoreScp acc reqCtx ab).refused = false := by
+theorem C18_substore_handler_ctx (g : Bool) (acc : List Cx) (reqCtx ab : Nat) (c : Cx)
+    (h : (cStoreScp g acc reqCtx ab).handler = some c) :
+    c ∈ acc ∧ AbOk ab c ∧ c.asScp = true ∧ (cStoreScp g acc reqCtx ab).rspCtx = some c.id ∧
+      (cStoreScp g acc reqCtx ab).refused = false := by
   unfold cStoreScp at h ⊢
-  cases hg : getValidContext acc ab none (some .scp) (some reqCtx) true with
-  | none => rw [hg] at h; simp at h
-  | some c' =>
-    rw [hg] at h
-    simp only [Option.some.injEq] at h
-    subst h
-    obtain ⟨h1, h2, h3, _⟩ := C18_sound _ _ _ _ _ _ _ hg
-    exact ⟨h1, h2, h3, rfl, rfl⟩
+  split at h
+  · simp at h
+  · rename_i hgd
+    simp only [hgd, Bool.false_eq_true, ↓reduceIte]
+    cases hg : getValidContext acc ab none (some .scp) (some reqCtx) true with
+    | none => rw [hg] at h; simp at h
+    | some c' =>
+      rw [hg] at h
+      simp only [Option.some.injEq] at h
+      subst h
+      obtain ⟨h1, h2, h3, _⟩ := C18_sound _ _ _ _ _ _ _ hg
+      exact ⟨h1, h2, h3, rfl, rfl⟩
 
-/-- the code violates the property here: context 3 alone is accepted (for CT, SCP
-role), a C-STORE sub-operation for another SOP class arrives on context 3, and the
-0x0122 response is sent on context 1, which was never accepted -/
-theorem C18_substore_rsp_neg :
+/-- the code violates the property here (with or without the test on the id): context 3 alone is
+accepted (for CT, SCP role), a C-STORE sub-operation for another SOP class arrives on context 3, and
+the 0x0122 response is sent on context 1, which was never accepted -/
+theorem C18_substore_rsp_neg (g : Bool) :
     ∃ (acc : List Cx) (reqCtx ab : Nat), reqCtx ∈ ids acc ∧
-      (cStoreScp acc reqCtx ab).rspCtx ∉ ids acc :=
-  ⟨[⟨3, 10, ⟨20, true, false, true⟩, false, true⟩], 3, 11, by decide⟩
+      (cStoreScp g acc reqCtx ab).rspCtx = some 1 ∧ 1 ∉ ids acc :=
+  ⟨[⟨3, 10, ⟨20, true, false, true⟩, false, true⟩], 3, 11, by cases g <;> decide⟩
 
 /-- and when context 1 *is* accepted, the refusal still travels on a context whose
 abstract syntax is not the message's SOP class (and that may lack the SCP role) -/
-theorem C18_substore_rsp_wrong_context_neg :
+theorem C18_substore_rsp_wrong_context_neg (g : Bool) :
     ∃ (acc : List Cx) (reqCtx ab : Nat) (c1 : Cx), lookup acc 1 = some c1 ∧ reqCtx ∈ ids acc ∧
-      (cStoreScp acc reqCtx ab).rspCtx = 1 ∧ c1.ab ≠ ab ∧ c1.asScp = false :=
+      (cStoreScp g acc reqCtx ab).rspCtx = some 1 ∧ c1.ab ≠ ab ∧ c1.asScp = false :=
   ⟨[⟨1, 6, ⟨20, true, false, true⟩, true, false⟩, ⟨3, 10, ⟨20, true, false, true⟩, false, true⟩],
-    3, 11, ⟨1, 6, ⟨20, true, false, true⟩, true, false⟩, by decide⟩
+    3, 11, ⟨1, 6, ⟨20, true, false, true⟩, true, false⟩, by cases g <;> decide⟩
 
 -- non-vacuity: the hypotheses are satisfiable and the functions do real work
 example :
@@ -389,11 +406,12 @@ example :
     -- UPS Push substitution
     (getValidContext acc upsPush none (some .scu) none true).map (·.id) = some 7 ∧
     Known (some ex) acc ∧
-    (cStoreScp acc 9 11).handler.map (·.id) = some 9 ∧
-    -- unaccepted id falls back to all accepted contexts
-    (cStoreScp acc 11 11).handler.map (·.id) = some 9 := by
+    (cStoreScp true acc 9 11).handler.map (·.id) = some 9 ∧
+    -- an unaccepted id: aborted by the code as it is, fallen back to all accepted contexts before the repair
+    (cStoreScp true acc 11 11).aborted = true ∧
+    (cStoreScp false acc 11 11).handler.map (·.id) = some 9 := by
   refine ⟨by decide, by decide, by decide, by decide, by decide, by decide, by decide, by decide, ?_,
-    by decide, by decide⟩
+    by decide, by decide, by decide⟩
   intro t ht
   cases ht
   exact ⟨rfl, Or.inr (by decide)⟩
